@@ -794,3 +794,79 @@ Proof. exact (v_addsub_post false x y). Qed.
 Theorem v_sub_post x y : value_ok x -> value_ok y -> is_num x = true -> is_num y = true ->
   val_post (widest x y) false 2 1 (value_scaled x - value_scaled y) 1 (v_sub true x y) (v_sub false x y).
 Proof. exact (v_addsub_post true x y). Qed.
+
+(* ------------------------------------------------------------------------------------------------ *)
+(* the rounding band above the largest number: when the exact result exceeds MAX and no Overflow is
+   raised, an operation whose error is below one unit in the last place returns exactly +-MAX *)
+
+(* value level: val_post with error < 1 ulp *)
+Theorem band_value t N D r rs : t = 4 \/ t = 8 -> 0 < D ->
+  val_post t true 1 1 N D (Ok r) rs -> max_scaled t * D < Z.abs N ->
+  value_scaled r = (if N <? 0 then -1 else 1) * max_scaled t /\ rs = Ok r.
+Proof.
+  intros Ht HD [(Ers & Htag & Hok & Hrest) _] Hbig. split; [|exact Ers].
+  destruct (tag_cases t Ht) as (Hmb & Hmax & Hmin & _ & Hsc).
+  pose proof (cls_ok t) as [HC _].
+  assert (Hr : exists b, r = mkf t b /\ buf_ok (cls t) b).
+  { destruct Ht as [-> | ->]; destruct r as [b|b|b|b]; try discriminate; exists b; split; try reflexivity; exact Hok. }
+  destruct Hr as (b & -> & Hb).
+  assert (Hzv : is_zero_value (mkf t b) = f_zero b) by (destruct Ht as [-> | ->]; reflexivity).
+  rewrite Hzv in Hrest. destruct (mkf_scaled t b Ht) as [Hvs _].
+  assert (Hulp : ulp_scaled (mkf t b) = 2 ^ f_exp b * scale_of t).
+  { destruct Ht as [-> | ->]; cbn [mkf Z.eqb Pos.eqb ulp_scaled scale_of]; [|lia].
+    pose proof (f_exp_bound Single_consts b Single_ok Hb). apply pow2_split; lia. }
+  set (sc := scale_of t) in *.
+  assert (Hmaxv : max_scaled t = (2 ^ mbits (cls t) - 1) * 2 ^ 255 * sc).
+  { unfold max_scaled. rewrite Hmax, Hmb. fold sc. lia. }
+  destruct (f_zero b) eqn:Hz.
+  - exfalso. assert (min_scaled <= max_scaled t) by (destruct Ht as [-> | ->]; vm_compute; discriminate).
+    assert (min_scaled * D <= max_scaled t * D) by (apply Z.mul_le_mono_nonneg_r; lia). lia.
+  - unfold err_le in Hrest. rewrite !Z.mul_1_l, Hvs, Hulp in Hrest.
+    rewrite Hvs, Hmaxv.
+    assert (Hbb := band_bytes (cls t) b N (sc * D) HC Hb ltac:(nia) Hz).
+    rewrite Hbb; [lia | |].
+    + replace (f_sval (cls t) b * (sc * D)) with (f_sval (cls t) b * sc * D) by lia.
+      replace (2 ^ f_exp b * (sc * D)) with (2 ^ f_exp b * sc * D) by lia. exact Hrest.
+    + rewrite Hmaxv in Hbig. replace ((2 ^ mbits (cls t) - 1) * 2 ^ 255 * (sc * D)) with ((2 ^ mbits (cls t) - 1) * 2 ^ 255 * sc * D) by lia.
+      exact Hbig.
+Qed.
+
+(* the band for + and - (the proved error of a true addition is below one unit in the last place) *)
+Lemma arith_safe_ok r payload b : arith_safe true r payload = Ok b -> r = Ok b.
+Proof.
+  destruct r as [b'|e|x|]; cbn [arith_safe]; try discriminate; [auto|].
+  destruct x as [|p|p]; try discriminate. do 4 (destruct p as [p|p|]; try discriminate).
+Qed.
+
+Theorem v_addsub_band (sub : bool) x y r : value_ok x -> value_ok y -> is_num x = true -> is_num y = true ->
+  let N := if sub then value_scaled x - value_scaled y else value_scaled x + value_scaled y in
+  (if sub then v_sub true x y else v_add true x y) = Ok r ->
+  max_scaled (widest x y) < Z.abs N ->
+  value_scaled r = (if N <? 0 then -1 else 1) * max_scaled (widest x y).
+Proof.
+  intros Hx Hy Nx Ny N E Hbig.
+  destruct (promote_spec x y Hx Hy Nx Ny) as (xa & ya & Hxa & Hya & Vx & Vy & _ & _ & Harith). cbv zeta in *.
+  set (t := widest x y) in *. pose proof (widest_cases x y) as Ht. fold t in Ht.
+  pose proof (cls_ok t) as [HC _]. destruct (tag_cases t Ht) as (Hmb & Hmax & _ & _ & Hsc).
+  set (sc := scale_of t) in *.
+  set (Nb := if sub then f_sval (cls t) xa - f_sval (cls t) ya else f_sval (cls t) xa + f_sval (cls t) ya).
+  assert (HN : N = Nb * sc) by (unfold N, Nb; rewrite <- Vx, <- Vy; destruct sub; lia).
+  assert (Hmaxv : max_scaled t = (2 ^ mbits (cls t) - 1) * 2 ^ 255 * sc).
+  { unfold max_scaled. rewrite Hmax, Hmb. fold sc. lia. }
+  assert (Hbigb : (2 ^ mbits (cls t) - 1) * 2 ^ 255 * 1 < Z.abs Nb).
+  { rewrite HN, Z.abs_mul, (Z.abs_eq sc), Hmaxv in Hbig by lia. nia. }
+  assert (Hsign : (N <? 0) = (Nb <? 0)).
+  { rewrite HN. destruct (Z.ltb_spec (Nb * sc) 0), (Z.ltb_spec Nb 0); try reflexivity; exfalso; nia. }
+  assert (Hb0 : exists b0, r = mkf t b0 /\ (if sub then mbf_isub (cls t) xa ya else mbf_iadd (cls t) xa ya) = Ok b0).
+  { destruct sub.
+    - unfold v_sub in E. rewrite v_num2_arith, Harith in E by assumption. unfold f_sub in E.
+      destruct (arith_safe true (mbf_isub (cls t) xa ya) _) as [b0| | |] eqn:Ea; cbn in E; try discriminate.
+      exists b0. split; [congruence|]. apply (arith_safe_ok _ _ _ Ea).
+    - rewrite v_add_arith, Harith in E by assumption. unfold f_add in E.
+      destruct (arith_safe true (mbf_iadd (cls t) xa ya) _) as [b0| | |] eqn:Ea; cbn in E; try discriminate.
+      exists b0. split; [congruence|]. apply (arith_safe_ok _ _ _ Ea). }
+  destruct Hb0 as (b0 & -> & Eop). destruct (mkf_scaled t b0 Ht) as [Hvs _]. rewrite Hvs, Hsign, Hmaxv. fold sc.
+  assert (Hs : f_sval (cls t) b0 = (if Nb <? 0 then -1 else 1) * ((2 ^ mbits (cls t) - 1) * 2 ^ 255)).
+  { unfold Nb in *. destruct sub; [apply (isub_band (cls t) xa ya b0) | apply (iadd_band (cls t) xa ya b0)]; assumption. }
+  rewrite Hs. lia.
+Qed.
